@@ -225,6 +225,11 @@ def run(ctx):
     # 2. generation -> replay on the real code
     runs = [_replay_cases(ctx, "gen_proof_quick.cfg" if q else "gen_proof_thorough.cfg", not q, "singles")]
     runs.append(_replay_cases(ctx, "gen_proof_pairs.cfg", not q, "pairs"))
+    # prefix fetches over nested prefixes in either order (narrow then broad, broad then narrow, a prefix twice) with keys before,
+    # inside and after the narrow range; honest proofs only: what is asked for must be determined by the proof
+    resn = vlib.run_tlc(ctx, d, "MCMkvsProof", "design_proof_nested.cfg", timeout=3000)
+    vlib.tlc_must_pass(ctx, resn, "design run nested prefixes")
+    runs.append(_replay_cases(ctx, "gen_proof_nested.cfg", not q, "nested"))
     tot = {}
     by = {k: {} for k in ("by_class", "by_kind", "by_kind_accepted", "by_version", "by_op", "verdict_drift_by_kind", "verify_error_texts")}
     samples, drift_samples = [], []
